@@ -222,6 +222,9 @@ def serialize_h2(fb, req, sid, scheme=b"http", priority=None, cont_split=None, e
             (b":authority", req["authority"])]
     if extra_pseudo:
         hdrs.extend(extra_pseudo)
+    if req.get("h2_host_too"):
+        # a Host header beside :authority (legal, e.g. a request translated from HTTP/1.1): the scope takes host from :authority, once
+        hdrs.append((b"host", req["authority"]))
     hdrs.extend(req["headers"])
     body = req["body"]
     out = bytearray(fb.headers(sid, hdrs, end_stream=(len(body) == 0), priority=priority, cont_split=cont_split))
